@@ -553,6 +553,7 @@ class List(list, base.Symbolic, pg_typing.CustomTyping):
       start, stop, step = self._parse_slice(index)
       replacements = [self._formalized_value(i, v) for i, v in enumerate(value)]
       extended = step != 1
+      updates = []
       if step < 0:
         # Assign in ascending order of the positions.
         positions = range(start, stop, step)
@@ -571,23 +572,22 @@ class List(list, base.Symbolic, pg_typing.CustomTyping):
           raise ValueError(
               f'Cannot assign slice: the new size ({new_size}) exceeds '
               f'max size ({self.max_size}).')
-        if (new_size < len(self)
-            and self._value_spec and new_size < self._value_spec.min_size):
-          raise ValueError(
-              f'Cannot assign slice: the new size ({new_size}) is below '
-              f'min size ({self._value_spec.min_size}).')
         if slice_size < len(replacements):
           for i in range(slice_size, len(replacements)):
             replacements[i] = Insertion(replacements[i])
-        else:
-          replacements.extend(
-              [pg_typing.MISSING_VALUE
-               for _ in range(slice_size - len(replacements))])
+        elif slice_size > len(replacements):
+          # The slice shrinks: the items that are not replaced are removed.
+          if self._value_spec and new_size < self._value_spec.min_size:
+            raise ValueError(
+                f'Cannot assign slice: the new size ({new_size}) is below '
+                f'min size ({self._value_spec.min_size}).')
+          for i in reversed(
+              range(start + len(replacements), start + slice_size)):
+            updates.append(self._remove_item_without_permission_check(i))
       elif slice_size != len(replacements):
         raise ValueError(
             f'attempt to assign sequence of size {len(replacements)} to '
             f'extended slice of size {slice_size}')
-      updates = []
       for i, r in enumerate(replacements):
         update = self._set_item_without_permission_check(start + i * step, r)
         if update is not None:
@@ -630,20 +630,23 @@ class List(list, base.Symbolic, pg_typing.CustomTyping):
           f'Cannot remove item: min size ({self._value_spec.min_size}) '
           f'is reached.')
 
+    update = self._remove_item_without_permission_check(index)
+    if flags.is_change_notification_enabled():
+      self._notify_field_updates([update])
+
+  def _remove_item_without_permission_check(
+      self, index: int) -> base.FieldUpdate:
+    """Removes the item at `index` without permission and size checks."""
     old_value = self.sym_getattr(index)
     super().__delitem__(index)
     # Detach the removed value from the object tree.
     if isinstance(old_value, base.TopologyAware):
       old_value.sym_setparent(None)
     self._update_children_index()
-
-    if flags.is_change_notification_enabled():
-      self._notify_field_updates([
-          base.FieldUpdate(
-              self.sym_path + index, self,
-              self._value_spec.element if self._value_spec else None,
-              old_value, pg_typing.MISSING_VALUE)
-      ])
+    return base.FieldUpdate(
+        self.sym_path + index, self,
+        self._value_spec.element if self._value_spec else None,
+        old_value, pg_typing.MISSING_VALUE)
 
   def __add__(self, other: Iterable[Any]) -> 'List':
     """Returns a concatenated List of self and other."""
